@@ -28,7 +28,13 @@ from pathlib import Path
 from harness import common
 
 CHILD = Path(__file__).resolve().parent / "c18_child.py"
-PLANS = [("S", 10), ("F3", 2), ("W4", 2), ("N2,5", 2), ("N3,2", 1), ("O", 2), ("K9", 2), ("K15", 1)]
+PLANS = [("S", 10), ("F3", 2), ("W4", 2), ("N2,5", 2), ("N3,2", 1), ("O", 2), ("K9", 2), ("K15", 1), ("U2,3", 3)]
+# everything a library key may be (bytes up to 255 long): dots, several dots, leading/trailing dots, stems and prefixes of
+# each other, suffixes the pipeline uses itself, spaces, non-ASCII.  (`/`, NUL, `:`, `,`, `|` are left out: the harness
+# uses job names as file names and `:,|` as separators of its own payload format)
+KEYS_SINGLE = ["m0", "lig", "lig.1", "lig.2", "lig.1.rot180", "cat_7.rot180", "cat_7.rot90", "cat_7", "a.b.c", "a.b", ".hidden",
+               "trail.", "x..y", "with space", "two  spaces.v2", "ünï.ß", "Lig", "o'neil.1", "m1.out", "m1.inp", "m1", "-dash", "k" * 40 + ".1"]
+KEYS_VECTOR = ["e0", "e", "e.1", "e.1.0", "ens 3", "ünï", ".h", "conf.set.2", "e0.out"]
 
 
 def hx(s: str) -> str:
@@ -42,8 +48,12 @@ def job_names(it):
 def gen_history(rng, quick, mode=None):
     mode = mode or rng.weighted([("single", 3), ("vector", 2)])
     n = rng.range(3, 5)
-    prefix = "m" if mode == "single" else "e"
-    items = [{"key": f"{prefix}{i}", "subs": None if mode == "single" else rng.range(1, 3)} for i in range(n)]
+    pool = list(KEYS_SINGLE if mode == "single" else KEYS_VECTOR)
+    rng.shuffle(pool)
+    if rng.chance(1, 2):      # a family of keys that are stems / prefixes of each other
+        fam = [k for k in pool if k.startswith(("lig", "cat_7", "a.b", "m1") if mode == "single" else ("e",))]
+        pool = fam + [k for k in pool if k not in fam]
+    items = [{"key": k, "subs": None if mode == "single" else rng.range(1, 3)} for k in pool[:n]]
     plans = {}
     for it in items:
         for j in job_names(it):
@@ -92,25 +102,25 @@ def run_child(ctx, scen, idx):
 
 
 def model_line(scen) -> str:
-    items = ",".join(f"{it['key']}:{'-' if it['subs'] is None else it['subs']}" for it in scen["items"])
-    pre = ",".join(f"{p['key']}={hx(p['marker'])}" for p in scen["pre_dest"]) or "-"
-    plans = ",".join(f"{j}={p.replace(',', '/')}" for j, p in scen["plans"].items()) or "-"
+    items = ",".join(f"{hx(it['key'])}:{'-' if it['subs'] is None else it['subs']}" for it in scen["items"])
+    pre = ",".join(f"{hx(p['key'])}={hx(p['marker'])}" for p in scen["pre_dest"]) or "-"
+    plans = ",".join(f"{hx(j)}={p.replace(',', '/')}" for j, p in scen["plans"].items()) or "-"
     runs = ";".join(f"{r['tag']}:{1 if r.get('strict', True) else 0}:{1 if r.get('reset_dest') else 0}" for r in scen["runs"])
     return f"hist r {items} {pre} {plans} {runs}"
 
 
 def observed_line(scen, res) -> str:
-    jobs = sorted({j for it in scen["items"] for j in job_names(it)})
+    jobs = sorted({j for it in scen["items"] for j in job_names(it)}, key=hx)
     out = []
     for rec in res["runs"]:
         if rec["raised"]:
             out.append("raise")
             continue
-        d = ",".join(f"{k}={hx(v or '')}" for k, v in sorted(rec["dest"].items()))
-        c = ",".join(f"{j}={rec['cache'][j][0]}/{hx(rec['cache'][j][1]) if rec['cache'][j][1] is not None else '-'}"
+        d = ",".join(f"{hx(k)}={hx(v or '')}" for k, v in sorted(rec["dest"].items(), key=lambda kv: hx(kv[0])))
+        c = ",".join(f"{hx(j)}={rec['cache'][j][0]}/{hx(rec['cache'][j][1]) if rec['cache'][j][1] is not None else '-'}"
                      for j in jobs if j in rec["cache"])
-        a = ",".join(f"{j}={rec['attempts'][j]}" for j in jobs if rec["attempts"].get(j))
-        out.append(f"ex={','.join(sorted(rec['executed']))} dest={d} cache={c} att={a}")
+        a = ",".join(f"{hx(j)}={rec['attempts'][j]}" for j in jobs if rec["attempts"].get(j))
+        out.append(f"ex={','.join(sorted(hx(j) for j in rec['executed']))} dest={d} cache={c} att={a}")
     return " | ".join(out)
 
 
@@ -120,6 +130,8 @@ def truly_succeeded(plan: str, attempt: int) -> bool:
         return True
     if plan.startswith("N"):
         return attempt >= int(plan[1:].split(",")[0])
+    if plan.startswith("U"):
+        return attempt < int(plan[1:].split(",")[0])
     return False        # F<c>, W<c>, K<signal>, O
 
 
@@ -195,6 +207,20 @@ def oracle(ctx, scen, res):
                 want = r["tag"] + "|" + ",".join(e[1] for e in ents)
                 if rec["dest"][k] != want:
                     ctx.violation("C18:stored-result-wrong", f"run {ri}: item {k!r} stored {rec['dest'][k]!r}, processed result is {want!r}", tag)
+            if k in rec["dest"] and r.get("strict", True):
+                # whatever the cache files say: a result stored by this call is computed from this call's arguments, and
+                # from executions that really succeeded
+                body = (rec["dest"][k] or "").split("|", 1)[-1]
+                for j, pay in zip(job_names(it), body.split(",")):
+                    parts = pay.rsplit(":", 2)
+                    if len(parts) != 3 or parts[0] != j or parts[1] != r["tag"]:
+                        ctx.violation("C18:stored-result-from-other-arguments",
+                                      f"run {ri} (arguments {r['tag']!r}): item {k!r} stored {rec['dest'][k]!r} — the part for job {j!r} was not computed from this call's input", tag)
+                        break
+                    if not truly_succeeded(scen["plans"].get(j, "S"), int(parts[2])):
+                        ctx.violation("C18:failed-item-stored",
+                                      f"run {ri}: item {k!r} stored {rec['dest'][k]!r} although attempt {parts[2]} of job {j!r} (plan {scen['plans'].get(j, 'S')}) did not succeed", tag)
+                        break
         foreign = set(rec["dest"]) - set(dest) - src_keys
         if foreign:
             ctx.violation("C18:foreign-key-stored", f"run {ri}: keys {sorted(foreign)} appeared in the destination", tag)
@@ -214,7 +240,8 @@ def load_corpus():
 
 
 def run(ctx):
-    ctx.rule = ("histories of 2..4 jobmap runs over 3..5 source items; single jobs (MoleculeLibrary) or vectorised jobs with 1..3 "
+    ctx.rule = ("histories of 2..4 jobmap runs over 3..5 source items whose keys are drawn from a pool of awkward library keys (dots, several "
+                "dots, leading/trailing dots, stems/prefixes of each other, `.out`/`.inp` endings, spaces, non-ASCII); single jobs (MoleculeLibrary) or vectorised jobs with 1..3 "
                 "sub-jobs per item (ConformerLibrary); per-job plans S / F3 / W4 (file written, then exit 4) / K9, K15 (file written, then killed by that signal) / N2,5 / N3,2 (succeed from "
                 "the n-th attempt) / O (return file omitted); destinations pre-populated with source keys and destination-only keys; "
                 "argument tag changed between runs with probability 1/4, non-strict hash check 1/8, the destination replaced by a new empty "
